@@ -53,41 +53,67 @@ def _order_free(e: ast.AST) -> bool:
     return False
 
 
+def _resolve_chain(f: FuncInfo, p, e: ast.AST, depth: int = 0) -> ast.AST:
+    """a local name with one reaching definition -> its value expression (followed through plain copies)"""
+    if isinstance(e, ast.Name) and depth < 8:
+        try:
+            at = p.node_of(e)
+        except KeyError:
+            return e
+        defs = [d for d in p.rd.defs_reaching(at, e.id) if d != p.g.entry]
+        if len(defs) == 1:
+            st = p.g.stmt[defs[0]]
+            if isinstance(st, (ast.Assign, ast.AnnAssign)) and st.value is not None and \
+                    (isinstance(st, ast.AnnAssign) or (len(st.targets) == 1 and isinstance(st.targets[0], ast.Name))):
+                return _resolve_chain(f, p, st.value, depth + 1)
+    return e
+
+
 def rule_eq(repo: Repo) -> RuleResult:
     r = RuleResult("C14.eq", "State.__eq__ compares the same order-free view of facts and of fluents of both operands; result = conjunction",
                    "two states are equal exactly when they contain the same ground facts and the same fluents with the same values")
-    f = repo.func("State.__eq__")
+    f = L.fn(repo, "State.__eq__")
+    p = L.prov(repo, f)
     me, other = f.params[0], f.params[1]
+    roots = {"self": me, f"param:{other}": other}
     cmps = [n for n in ast.walk(f.node) if isinstance(n, ast.Compare) and len(n.ops) == 1 and isinstance(n.ops[0], (ast.Eq, ast.NotEq))]
     fields_seen: Dict[str, Set[str]] = {me: set(), other: set()}
     atom_of: Dict[int, str] = {}
+
+    def view(e):
+        """(root, {paths without the root}) of the state-derived part of an expression"""
+        try:
+            tr = p.trace(e)
+        except KeyError:
+            return None, set()
+        rel = {x for x in tr if x[0] in roots and any(s_ in ("attr:state_predicates", "attr:state_fluents") for s_ in x)}
+        rs = {x[0] for x in rel}
+        if len(rs) != 1:
+            return (None if not rs else "both"), {x[1:] for x in rel}
+        return rs.pop(), {x[1:] for x in rel}
+
     for c in cmps:
-        a, b = _resolve_local(f, c.left), _resolve_local(f, c.comparators[0])
-        fa = {n.attr for n in ast.walk(a) if isinstance(n, ast.Attribute) and isinstance(n.value, ast.Name) and n.value.id in (me, other)}
-        if not fa:
+        (ra, pa), (rb, pb) = view(c.left), view(c.comparators[0])
+        if ra is None and rb is None:
             continue
         r.site(L.site(f, c, "comparison"))
-        roots_a = {n.value.id for n in ast.walk(a) if isinstance(n, ast.Attribute) and isinstance(n.value, ast.Name) and n.value.id in (me, other)}
-        roots_b = {n.value.id for n in ast.walk(b) if isinstance(n, ast.Attribute) and isinstance(n.value, ast.Name) and n.value.id in (me, other)}
-        ok = len(roots_a) == 1 and len(roots_b) == 1 and roots_a != roots_b
-        if ok:
-            ra, rb = next(iter(roots_a)), next(iter(roots_b))
-            ok = _norm_dump(a, ra) == _norm_dump(b, rb)
+        ok = ra in roots and rb in roots and ra != rb and pa == pb
         if not ok:
             r.fail(Finding("C14.eq", f, "asymmetric-comparison", f"{unparse(c)} does not compare the same view of self and other", node=c))
             continue
+        a, b = _resolve_chain(f, p, c.left), _resolve_chain(f, p, c.comparators[0])
         if not (_order_free(a) and _order_free(b)):
             r.fail(Finding("C14.eq", f, "order-dependent-comparison", f"{unparse(c)} compares order-dependent collections", node=c))
             continue
+        fa = {s_[5:] for x in pa for s_ in x if s_ in ("attr:state_predicates", "attr:state_fluents")}
         for fld in fa:
-            fields_seen[ra].add(fld)
-            fields_seen[rb].add(fld)
+            fields_seen[me].add(fld)
+            fields_seen[other].add(fld)
         key = "facts" if "state_predicates" in fa else ("fluents" if "state_fluents" in fa else None)
-        if key:
+        if key and len(fa) == 1:
             atom_of[id(c)] = key if isinstance(c.ops[0], ast.Eq) else "!" + key
-        # what is compared for each element
-        view = sorted({n.attr for n in ast.walk(a) if isinstance(n, ast.Attribute) and not (isinstance(n.value, ast.Name) and n.value.id in (me, other))})
-        r.ok({"comparison": unparse(c), "fields": sorted(fa), "element_view": view})
+        elview = sorted({s_[5:] for x in pa for s_ in x if s_.startswith("attr:") and s_ not in ("attr:state_predicates", "attr:state_fluents")})
+        r.ok({"comparison": unparse(c), "fields": sorted(fa), "element_view": elview})
     need = {"state_predicates", "state_fluents"}
     for who in (me, other):
         r.site(f"{f.qn} [fields of {who}]")
@@ -105,19 +131,12 @@ def rule_eq(repo: Repo) -> RuleResult:
     for facts, fl in itertools.product([False, True], repeat=2):
         valn = {"facts": facts, "fluents": fl}
         seen = G.reach(valn)
-
-        def val(e):
-            a = atom_of.get(id(e))
-            if a:
-                v = valn[a.lstrip("!")]
-                return (not v) if a.startswith("!") else v
-            return None
-
         results = set()
         for n in seen:
             if g.kind[n] == "return":
                 rv = g.stmt[n].value
-                results.add(C.eval3(rv, val) if rv is not None else None)
+                v = G.value(valn, rv, seen) if rv is not None else None
+                results.add(v if isinstance(v, bool) else None)
         table[f"facts_equal={facts},fluents_equal={fl}"] = sorted(map(str, results))
         if results != {facts and fl}:
             bad.append((facts, fl, results))
@@ -125,7 +144,6 @@ def rule_eq(repo: Repo) -> RuleResult:
         r.fail(Finding("C14.eq", f, "result", f"__eq__ result is not (facts equal and fluents equal): {table}"), table)
     else:
         r.ok(table)
-    # the element views: facts compared by their ground text, fluents by text including the value
     r.require_sites(4)
     return r
 
@@ -238,7 +256,7 @@ def rule_copy(repo: Repo, rid: str = "C14.copy") -> RuleResult:
 
 def rule_serialize(repo: Repo, rid: str = "C14.serialize") -> RuleResult:
     r = RuleResult(rid, "State.serialize depends on state_predicates, state_fluents and is_init", "equal states serialise alike; the label distinguishes the initial state")
-    f = repo.func("State.serialize")
+    f = L.fn(repo, "State.serialize")
     got = F.slice_fields(repo, f, f.self_name, "State")
     r.site(f.qn)
     need = {"state_predicates", "state_fluents", "is_init"}
@@ -247,11 +265,9 @@ def rule_serialize(repo: Repo, rid: str = "C14.serialize") -> RuleResult:
     else:
         r.fail(Finding(rid, f, f"field-not-serialised:{'/'.join(sorted(need - got))}", f"serialize() does not depend on {sorted(need - got)}"))
     # the element views used by serialize are the ones __eq__ compares
-    e = repo.func("State.__eq__")
+    e = L.fn(repo, "State.__eq__")
     ser_views = set()
-    for fn in (f, repo.func_opt("State._serialize_predicates"), repo.func_opt("State._serialize_numeric_fluents")):
-        if fn is None:
-            continue
+    for fn in (f,):
         for n in ast.walk(fn.node):
             if isinstance(n, ast.Attribute) and n.attr in ("untyped_representation", "state_representation"):
                 ser_views.add(n.attr)
@@ -271,7 +287,7 @@ def rule_views(repo: Repo) -> RuleResult:
                    "same facts / same fluents with the same values")
     for cname, prop, need in (("GroundedPredicate", "untyped_representation", {"name", "object_mapping", "is_positive"}),
                               ("PDDLFunction", "state_representation", {"name", "signature", "repeating_variables", "stored_value"})):
-        m = repo.func(f"{cname}.{prop}")
+        m = L.fn(repo, f"{cname}.{prop}")
         got = F.slice_fields(repo, m, m.self_name, cname)
         r.site(m.qn)
         if need <= got:
